@@ -123,6 +123,8 @@ class Acceptor:
         self.dispatched_keys = set()
         self.tolerate = set()      # rule ids that are reported but do not abort (known findings mode)
         self.threw = False
+        self.ledger_errors = []
+        self.zoo_stats = None
         self.weak = False
         self.weak_pending = False
         self.weak_prev = {}
@@ -135,6 +137,10 @@ class Acceptor:
 
     # ------------------------------------------------------------------ trace access
     def peek(self):
+        # instance-ledger complaints of the event zoo (C20) are collected and reported at the end of the run
+        while self.pos < len(self.recs) and self.recs[self.pos].k == 'LEDGER':
+            self.ledger_errors.append(self.recs[self.pos].raw)
+            self.pos += 1
         # is_event_deferred predicate calls (backmp11) are reads: transparent, but validated
         while self.pos < len(self.recs) and self.recs[self.pos].k == 'DF':
             r = self.recs[self.pos]
@@ -1114,7 +1120,20 @@ class Acceptor:
                 continue
             if r.k in ('STDERR', 'EXITRC'):
                 continue
+            if r.k == 'LEDGER':
+                self.ledger_errors.append(r.raw)
+                continue
+            if r.k == 'LIVE':
+                live, ctor, dtor, errs = [int(x) for x in r.extra[:4]]
+                self.zoo_stats = (live, ctor, dtor, errs)
+                if live != 0:
+                    raise Reject({'C20'}, 'event-objects-leaked', 'no stored event alive after all machines are destroyed',
+                                 r.raw, self.pos)
+                continue
             self.reject({'C04', 'C11'}, 'record-outside-call', 'CALL', r)
+        if self.ledger_errors:
+            raise Reject({'C20'}, 'event-instance-ledger', 'every stored event constructed and destroyed exactly once, intact',
+                         self.ledger_errors[0], self.pos)
 
     def call(self, r):
         self.counts['ops'] += 1
